@@ -42,10 +42,12 @@ def specOps : Track → List Op → List (Option Res)
   | _, [] => []
   | tr, op :: ops => let (tr', r) := specStep tr op; r :: specOps tr' ops
 
-/-- member rules yield sorted streams (C01) -/
+/-- member rules yield sorted streams (C01); slice bounds and `islice` counts stay within `sys.maxsize`
+    (beyond it the generator path raises ValueError: known finding D-C12-maxsize) -/
 def opSorted : Op → Prop
   | .addRRule l => l.Pairwise (· ≤ ·)
   | .addExRule l => l.Pairwise (· ≤ ·)
+  | .q q => small q = true
   | _ => True
 
 /-- this op does not advance an iterator created before an earlier mutator -/
